@@ -765,15 +765,19 @@ pub proof fn lemma_final<'f, S: 'f + Clone + Debug + PartialOrd, A: FixedPointAn
 // ---------------------------------------------------------------------------------------------
 // client-facing consequences of the solver's postconditions
 
+/// `c` is an upper bound of the states of the inputs of `l`
+pub open spec fn inputs_below<'f, S: 'f + Clone + Debug + PartialOrd, A: FixedPointAnalysis<'f, S>>(a: &A, f: Function, fwd: bool, st: LMap<S>, l: Loc, c: S) -> bool {
+    forall|p: Loc| input_of(f, fwd, l, p) && #[trigger] st(p) is Some ==> a.le(st(p).unwrap(), c)
+}
+
 /// the in-state is a LEAST UPPER BOUND of the states of the inputs ("the join of the states of its predecessors")
 pub proof fn lemma_in_fold_is_lub<'f, S: 'f + Clone + Debug + PartialOrd, A: FixedPointAnalysis<'f, S>>(a: &A, f: Function, fwd: bool, st: LMap<S>, l: Loc, ps: Seq<Loc>)
     requires lm_inv(a, st), lists_inputs(f, fwd, l, ps),
     ensures
         opt_inv(a, in_fold(a, st, ps)),
         in_fold(a, st, ps) is Some <==> exists|p: Loc| input_of(f, fwd, l, p) && #[trigger] st(p) is Some,
-        forall|p: Loc| input_of(f, fwd, l, p) && #[trigger] st(p) is Some ==> in_fold(a, st, ps) is Some && a.le(st(p).unwrap(), in_fold(a, st, ps).unwrap()),
-        forall|c: S| a.st_inv(c) && (forall|p: Loc| input_of(f, fwd, l, p) && #[trigger] st(p) is Some ==> a.le(st(p).unwrap(), c))
-            ==> (in_fold(a, st, ps) is Some ==> #[trigger] a.le(in_fold(a, st, ps).unwrap(), c)),
+        in_fold(a, st, ps) matches Some(j) ==> inputs_below(a, f, fwd, st, l, j),
+        forall|c: S| a.st_inv(c) && #[trigger] inputs_below(a, f, fwd, st, l, c) && in_fold(a, st, ps) is Some ==> a.le(in_fold(a, st, ps).unwrap(), c),
 {
     lemma_inputs_inv(a, st, ps);
     lemma_fold_inv(a, st, ps, ps.len());
@@ -787,8 +791,7 @@ pub proof fn lemma_in_fold_is_lub<'f, S: 'f + Clone + Debug + PartialOrd, A: Fix
         let i = choose|i: int| 0 <= i < ps.len() && #[trigger] st(ps[i]) is Some;
         assert(input_of(f, fwd, l, ps[i]) && st(ps[i]) is Some);
     }
-    assert forall|c: S| a.st_inv(c) && (forall|p: Loc| input_of(f, fwd, l, p) && #[trigger] st(p) is Some ==> a.le(st(p).unwrap(), c))
-        implies (in_fold(a, st, ps) is Some ==> #[trigger] a.le(in_fold(a, st, ps).unwrap(), c)) by {
+    assert forall|c: S| a.st_inv(c) && #[trigger] inputs_below(a, f, fwd, st, l, c) && in_fold(a, st, ps) is Some implies a.le(in_fold(a, st, ps).unwrap(), c) by {
         assert forall|i: int| 0 <= i < ps.len() implies (#[trigger] st(ps[i]) matches Some(y) ==> a.le(y, c)) by {
             assert(input_of(f, fwd, l, ps[i]));
         }
